@@ -22,7 +22,7 @@ JUNK_TEXTS = ['this is not a Manifest\n', 'DATA\n', 'FOO bar 1\n',
 def prior_state(draw, allow_none=True, lies=True, conflicts=True,
                 junk=True, hidden=True, dir_links=True, max_dirs=4,
                 max_files=7, sub_prob=(1, 2), ignores=True, dist=True,
-                timestamp=True, second_manifest=True):
+                timestamp=True, second_manifest=True, odd_spellings=True):
     """Tree + arbitrary prior Manifest state.
     Returns {'tree', 'manifests', 'pre_ops', 'tags', 'mode'}."""
     spec = draw(treegen.tree_spec(max_dirs=max_dirs, max_files=max_files,
@@ -38,7 +38,8 @@ def prior_state(draw, allow_none=True, lies=True, conflicts=True,
     lay = draw(layout.layout(spec, lies=lies, conflicts=conflicts,
                              sub_prob=sub_prob, ignores=ignores, dist=dist,
                              timestamp=timestamp,
-                             second_manifest=second_manifest))
+                             second_manifest=second_manifest,
+                             odd_spellings=odd_spellings))
     tags += lay['tags']
     manifests = lay['manifests']
     # files without entries
@@ -131,12 +132,18 @@ def update_opts(draw, state, allow_subdir=True, allow_cli=True,
         if allow_cli else 'lib',
         'watermark': None, 'format': None,
     }
+    if o['api'] == 'lib' and target and draw(st.integers(0, 3)) == 0:
+        o['target_slash'] = True    # 'sub/' instead of 'sub'
     if allow_compress and draw(st.integers(0, 2)) == 0:
         o['watermark'] = draw(st.sampled_from([0, 40, 120, 300, 10 ** 6]))
         o['format'] = draw(st.sampled_from([None, 'gz', 'bz2', 'lzma',
                                             'xz']))
     if o['api'] == 'cli' and o['sort'] is not None:
         o['sort'] = None        # the CLI has no sort option (profile only)
+    if o['api'] == 'cli':
+        o['spelling'] = draw(st.sampled_from(
+            ['abs', 'abs', 'abs-slash', 'rel', 'rel-dot', 'rel-slash',
+             'from-inside']))
     return o
 
 
@@ -160,7 +167,7 @@ def build_prior(state, root):
 
 
 def run_update(root, o, create=False, last_mtime=None, save=True,
-               extra_cli=(), loader_kwargs=None, profile=None):
+               extra_cli=(), loader_kwargs=None, profile=None, pre=None):
     """Run one update (+save) as described by @o.  Returns gem.Outcome."""
     top = os.path.join(root, 'Manifest')
     if o['api'] == 'cli':
@@ -175,8 +182,9 @@ def run_update(root, o, create=False, last_mtime=None, save=True,
         if profile:
             argv += ['-p', profile]
         argv += list(extra_cli)
-        argv.append(os.path.join(root, o['target']) if o['target'] else root)
-        oc, records, _ = gem.cli(argv)
+        arg, cwd = gem.spell(root, o['target'], o.get('spelling', 'abs'))
+        argv.append(arg)
+        oc, records, _ = gem.cli(argv, cwd=cwd)
         if oc.kind == 'return' and oc.value not in (0, None):
             oc = gem.Outcome('gemato', value=oc.value, exc=RuntimeError(
                 '; '.join(r.getMessage() for r in gem.error_records(records))
@@ -196,10 +204,13 @@ def run_update(root, o, create=False, last_mtime=None, save=True,
             kwargs['profile'] = get_profile_by_name(profile)
         kwargs.update(loader_kwargs or {})
         m = gem.ManifestRecursiveLoader(top, **kwargs)
+        if pre is not None:
+            pre(m)      # earlier use of the same loader instance
         ukw = {}
         if last_mtime is not None:
             ukw['last_mtime'] = last_mtime
-        m.update_entries_for_directory(o['target'], **ukw)
+        m.update_entries_for_directory(
+            o['target'] + ('/' if o.get('target_slash') else ''), **ukw)
         if save:
             m.save_manifests(force=o['force'])
         return m
